@@ -51,9 +51,9 @@ pub proof fn lemma_in_section(sec: Seq<ResourceRecord>, i: int)
 BU = "broadcast use group_eq_axioms, vstd::std_specs::hash::group_hash_axioms, axiom_dn_key_model;"
 
 VALIDATE_SPEC = {
-    "props": ["C06", "C08", "C10"],
+    "props": ["C06", "C07", "C08", "C10"],
     "contract": """    requires response.answers@.len() <= 0xffff, response.authority@.len() <= 0xffff,
-    ensures r is Some ==> response_ok(r->Some_0, *question, *response, current_match_count), // [C06,C10:only_relevant_records_of_the_reply_are_used_and_the_continuation_is_the_end_of_the_alias_chain]""",
+    ensures r is Some ==> response_ok(r->Some_0, *question, *response, current_match_count), // [C06,C07,C10:only_relevant_records_of_the_reply_are_used_and_the_continuation_is_the_end_of_the_alias_chain]""",
     "entry": BU,
     "loops": {
         # on_path walk
